@@ -464,9 +464,8 @@ func (c *Core) localDelivery(bp BundleDescriptor) {
 
 	if err := c.agentManager.Deliver(bp); err != nil {
 		log.WithField("bundle", bp.ID()).WithError(err).Warn("Delivering local bundle errored")
-	}
-
-	if bp.MustBundle().PrimaryBlock.BundleControlFlags.Has(bpv7.StatusRequestDelivery) {
+	} else if bp.MustBundle().PrimaryBlock.BundleControlFlags.Has(bpv7.StatusRequestDelivery) {
+		// Only report a delivery which has taken place.
 		c.SendStatusReport(bp, bpv7.DeliveredBundle, bpv7.NoInformation)
 	}
 
